@@ -9,7 +9,7 @@ r = subprocess.run(["git", "-C", "/repo", "apply", f"{d}/patch.diff"], capture_o
 applied = r.returncode == 0
 out = ""
 if applied:
-    p = subprocess.run(["./check", prop], cwd="/verif", capture_output=True, text=True)
+    p = subprocess.run(["./check", prop], cwd="/verif", capture_output=True, text=True, env=dict(os.environ, VERIF_EVIDENCE_DIR="/tmp/verif-seed-evidence"))
     out = "\n".join(l for l in p.stdout.split("\n") if re.match(r"^(VIOLATION|OK|KNOWN-FINDING)", l))
     rc = p.returncode
     subprocess.run(["git", "-C", "/repo", "checkout", "--", "."]); subprocess.run(["git", "-C", "/repo", "clean", "-fdq"])
